@@ -552,6 +552,9 @@ class Gen:
         #                 the attribute paths that resolve it (`("rg", id, form)`; implementation-only vocabulary)
         #  trx_p          a try/except TRANSLATES the failure it handles: `except K: raise K2(..) [from e]` ("trx")
         self.glob_p, self.trx_p, self.n_glob = glob_p, trx_p, n_glob
+        #  after_call_p   (with fail_cell_p) a failing cells first OBTAINS the value of a lower cells and raises then:
+        #                 the failed element had a completed precedent
+        self.after_call_p = 0.0
         self.defaults = {}
         self.cur_space = 0
         self.no_try = False     # set per program: no formula handles a failure (the regime of the C02 theorems)
@@ -727,6 +730,12 @@ class Gen:
         """a formula that fails whatever the arguments: a raise, a call of such a cells, or a recursion that
         descends p0 levels and raises at the bottom"""
         kind = self.rng.choice([0, 0, 1, 1, 2, 3])
+        if self.after_call_p and cid > 0 and self.rng.random() < self.after_call_p:
+            call = self.mkcall(self.rng.randrange(cid), arities, lambda: self.leaf(nparams))
+            if nparams and self.rng.random() < 0.5:
+                # fails for some arguments only: a repair by a value edit of the precedent is possible
+                return ("if", ("lt", ("lit", 1), call), ("raise", kind), ("add", call, ("lit", 1)))
+            return ("add", call, ("raise", kind))
         r = self.rng.random()
         if self.failing and r < 0.4:
             j = self.rng.choice(self.failing)
@@ -748,6 +757,12 @@ class Gen:
                 j = self.rng.randrange(cid)
             call = self.mkcall(j, arities, lambda: self.leaf(nparams))
             c = "all" if self.rng.random() < 0.5 else self.rng.choice(["k0", "k1", "k2", "k3"])
+            if self.trx_p:
+                # (C05) no catch-all (a caught depth error is another matter), and the handler TRANSLATES: a default
+                # computed while a callee failed is C02's matter (no dependency on a failed callee is recorded)
+                c = self.rng.choice(["k0", "k1", "k2", "k3"])
+                tries.append(("trx", call, c, self.rng.choice([0, 1, 2, 3]), self.rng.randrange(2)))
+                continue
             tries.append(("try", call, c, self.leaf(nparams)))
         for t in reversed(tries):
             rest = ("add", t, rest)
